@@ -59,13 +59,13 @@ C01_EXCL = ('no_try_else', 'no_for_target_rebind', 'no_lambda_capture_across_reb
             'no_jump_in_handler_with_finally')
 # exclusion flags of the LISTS findings (see the L<nn> replays under replays/C01)
 LIST_EXCL = (
-    'no_index_augassign',             # F19 / L06: xs[i] += e -> ag__.update_item_with_op, which no module defines
-    'no_pop_in_append_statement',     # L01: ys.append(xs.pop()) crashes the conversion
-    'no_pop_in_try',                  # L02: pop inside try/except/finally blocks is hoisted in front of the try statement
+    # (repaired in /repo, generated again) 'no_index_augassign',             # F19 / L06: xs[i] += e -> ag__.update_item_with_op, which no module defines
+    # (repaired in /repo, generated again) 'no_pop_in_append_statement',     # L01: ys.append(xs.pop()) crashes the conversion
+    # (repaired in /repo, generated again) 'no_pop_in_try',                  # L02: pop inside try/except/finally blocks is hoisted in front of the try statement
     'no_pop_in_loop_test',            # L03: pop inside a while test is hoisted in front of the loop (evaluated once)
     'no_pop_in_lazy_position',        # L04: pop inside and/or operands / conditional expressions is evaluated eagerly
     'no_pop_after_dependent_operand',  # L05: pop is hoisted in front of operands evaluated before it
-    'no_list_display_target',         # L07: [x, y] = ... (list display as assignment target) becomes ag__.new_list(...) = ...
+    # (repaired in /repo, generated again) 'no_list_display_target',         # L07: [x, y] = ... (list display as assignment target) becomes ag__.new_list(...) = ...
     'no_impure_index_in_store',       # L08: xs[i] = v / xs[i:j] = v evaluate i, j before v (Python: v first)
 )
 _AUGSUB = re.compile(r"^(\s*)(\w+\[[^\]=]*\]) ([-+*])= (.*)$")
